@@ -135,6 +135,9 @@ def _init_worker(root, verif):
 
 def quiet_library_logging():
     import logging
+    import warnings
+    warnings.simplefilter('ignore', SyntaxWarning)
+    warnings.simplefilter('ignore', DeprecationWarning)
     lg = logging.getLogger('calmjs')
     lg.addHandler(logging.NullHandler())
     lg.propagate = False
